@@ -120,7 +120,7 @@ void averageHistory(vf::Ctx & c)
     int n = 0;
     if (s > 0) {
       avg.reset();
-      c.check(!avg.isAvailable(), vf::fmt("segment %zu: isAvailable() is true right after reset()", s));
+      VF_CHECK(c, !avg.isAvailable(), "segment %zu: isAvailable() is true right after reset()", s);
     }
     for (int k = 0; k < h.segLen[s]; ++k) {
       double v = h.values[pos++];
@@ -129,23 +129,23 @@ void averageHistory(vf::Ctx & c)
       win.push_back(exact ? std::trunc(v / pr.p) * pr.p : v);   // exact class: the truncated sample itself
       if (static_cast<int>(win.size()) > W) {win.pop_front();}
       bool avail = avg.isAvailable();
-      c.check(avail == (n >= W), vf::fmt("segment %zu update %d (W=%d): isAvailable()=%d but %d samples arrived since the last reset", s, n, W, avail, n));
+      VF_CHECK(c, avail == (n >= W), "segment %zu update %d (W=%d): isAvailable()=%d but %d samples arrived since the last reset", s, n, W, avail, n);
       LD sum = 0;
       for (double x : win) {sum += x;}
       LD mean = sum / static_cast<LD>(win.size());
       double got = avg.getAverage();
-      c.check(std::isfinite(got), vf::fmt("segment %zu update %d: average not finite", s, n));
+      VF_CHECK(c, std::isfinite(got), "segment %zu update %d: average not finite", s, n);
       double err = std::fabs(static_cast<double>(got - mean));
       c.maxStat("average-error/precision", err / pr.p);
       if (exact) {
         // samples are integer multiples of p = 2^-k: truncation is the identity, the average must be exact
         double tol = 1e-12 * std::max(std::fabs(static_cast<double>(mean)), pr.p);
-        c.check(err <= tol, vf::fmt("segment %zu update %d (W=%d, p=2^-%d): average %.17g, mean of the last %zu samples is %.17Lg",
-          s, n, W, pr.k2, got, win.size(), mean));
+        VF_CHECK(c, err <= tol, "segment %zu update %d (W=%d, p=2^-%d): average %.17g, mean of the last %zu samples is %.17Lg",
+          s, n, W, pr.k2, got, win.size(), mean);
       } else {
         double tol = truncBound * (1 + 1e-7) + 1e-12 * std::fabs(static_cast<double>(mean));
-        c.check(err <= tol, vf::fmt("segment %zu update %d (W=%d, p=%.9g): average %.17g differs from the mean %.17Lg of the last %zu samples by %.3g > truncation bound %.3g",
-          s, n, W, pr.p, got, mean, win.size(), err, tol));
+        VF_CHECK(c, err <= tol, "segment %zu update %d (W=%d, p=%.9g): average %.17g differs from the mean %.17Lg of the last %zu samples by %.3g > truncation bound %.3g",
+          s, n, W, pr.p, got, mean, win.size(), err, tol);
       }
     }
   }
@@ -171,7 +171,7 @@ void varianceHistory(vf::Ctx & c)
     int n = 0;
     if (s > 0) {
       var.reset();
-      c.check(!var.isAvailable(), vf::fmt("segment %zu: isAvailable() is true right after reset()", s));
+      VF_CHECK(c, !var.isAvailable(), "segment %zu: isAvailable() is true right after reset()", s);
     }
     for (int k = 0; k < h.segLen[s]; ++k) {
       double v = h.values[pos++];
@@ -179,7 +179,7 @@ void varianceHistory(vf::Ctx & c)
       ++n;
       win.push_back(exact ? std::trunc(v / pr.p) * pr.p : v);
       if (static_cast<int>(win.size()) > W) {win.pop_front();}
-      c.check(var.isAvailable() == (n >= W), vf::fmt("segment %zu update %d (W=%d): isAvailable()=%d", s, n, W, var.isAvailable()));
+      VF_CHECK(c, var.isAvailable() == (n >= W), "segment %zu update %d (W=%d): isAvailable()=%d", s, n, W, var.isAvailable());
       if (n < W) {continue;}
       // exact statistics of the window (long double is enough: |v|/p <= 1e8, W <= 64)
       LD sum = 0, sumsq = 0;
@@ -189,7 +189,7 @@ void varianceHistory(vf::Ctx & c)
       for (double x : win) {ss += (x - mean) * (x - mean);}
       LD refVar = ss / (W - 1);
       double got = var.getVariance();
-      c.check(std::isfinite(got), vf::fmt("segment %zu update %d: variance not finite", s, n));
+      VF_CHECK(c, std::isfinite(got), "segment %zu update %d: variance not finite", s, n);
       // rounding of (sumsq/m^2 - n*avg^2)/(W-1): two large nearly equal numbers
       double roundTol = 64 * 2.220446049250313e-16 * static_cast<double>((sumsq + W * mean * mean) / (W - 1));
       double tol = roundTol;
@@ -200,12 +200,12 @@ void varianceHistory(vf::Ctx & c)
       }
       double err = std::fabs(static_cast<double>(got - refVar));
       c.maxStat("variance-error/tolerance", tol > 0 ? err / tol : (err > 0 ? 1e300 : 0));
-      c.check(err <= tol, vf::fmt("segment %zu update %d (W=%d, p=%.9g%s): variance %.17g, unbiased sample variance of the last W samples is %.17Lg (|diff| %.3g > tol %.3g)",
-        s, n, W, pr.p, exact ? ", exact samples" : "", got, refVar, err, tol));
+      VF_CHECK(c, err <= tol, "segment %zu update %d (W=%d, p=%.9g%s): variance %.17g, unbiased sample variance of the last W samples is %.17Lg (|diff| %.3g > tol %.3g)",
+        s, n, W, pr.p, exact ? ", exact samples" : "", got, refVar, err, tol);
       // the average reported by the variance object follows the same window
       double ga = var.getAverage();
       double atol = exact ? 1e-12 * std::max(std::fabs(static_cast<double>(mean)), pr.p) : d * (1 + 1e-7) + 1e-12 * std::fabs(static_cast<double>(mean));
-      c.check(std::fabs(static_cast<double>(ga - mean)) <= atol, vf::fmt("segment %zu update %d: OnlineVariance average %.17g vs window mean %.17Lg", s, n, ga, mean));
+      VF_CHECK(c, std::fabs(static_cast<double>(ga - mean)) <= atol, "segment %zu update %d: OnlineVariance average %.17g vs window mean %.17Lg", s, n, ga, mean);
     }
   }
 }
@@ -248,7 +248,7 @@ void ringHistory(vf::Ctx & c)
       ring.clear();
       model.clear();
     }
-    c.check(ring.size() == model.size(), vf::fmt("op %d: size() = %zu, expected min(n, capacity) = %zu (capacity %d)", step, ring.size(), model.size(), cap));
+    VF_CHECK(c, ring.size() == model.size(), "op %d: size() = %zu, expected min(n, capacity) = %zu (capacity %d)", step, ring.size(), model.size(), cap);
     for (size_t k = 0; k < model.size(); ++k) {
       const Eigen::Vector2d & e = ring[k];
       if (!(e[0] == model[k] && e[1] == -2.0 * model[k])) {
